@@ -1,13 +1,14 @@
 /-
-  Proofs/MixtureDMPerBranch.lean — what `MixedStabilizer.apply_measurement` *as coded* (every branch measured on its own)
-  does to the state `R = Σ_k w_k ρ(T_k)`, for every mixture and every number of qubits.  Split the mixture into the branches
+  Proofs/MixtureDMPerBranch.lean — HISTORICAL (`Mix.measureOld`): what `MixedStabilizer.apply_measurement` of graphiq *before
+  the repair of finding F2* (every branch measured on its own) did to the state `R = Σ_k w_k ρ(T_k)`, for every mixture and every number of qubits.  Split the mixture into the branches
   whose outcome is random (`R_rand`) and those whose outcome is deterministic (`R_det`).  Then
 
       Σ (measure q o m) = 2 · Π_o R_rand Π_o + R_det :
 
   the random branches are post-selected on the forced outcome `o` (and renormalised), the deterministic branches are left as they
   are *whatever their outcome* — i.e. measured non-selectively.  The density-matrix backend post-selects all of `R` on one
-  outcome.  The two agree when the branches agree (Proofs/MixtureDMMeasure); this is the exact shape of finding F2.
+  outcome.  The two agree when the branches agree (Proofs/MixtureDMMeasure); this is the exact shape of finding F2 (repaired by the joint
+  measurement `Mix.measure`, Proofs/MixtureDMJoint*.lean).
 -/
 import GraphiqModel.Proofs.MixtureDMMeasure
 namespace Graphiq
